@@ -491,6 +491,8 @@ def signature(op: dict, obs: dict, complaint: str, any_arith: set | None = None)
                 arith = "configured-" + op["cfg"]
             elif obs["mode"] == "wire" and all(x["v"]["t"] == "bool" for x in d):
                 arith = "boolean-on-the-wire"
+            elif op["slice"] == "twins":
+                arith = "twin-of-another-example"
             elif all(_falsy(x["v"]) for x in d):
                 arith = "falsy-value"
             key = "%s/%s:%s" % (e["place"], e["form"], "body" if e["kind"] == "body" else "parameter")
